@@ -240,3 +240,163 @@ pub fn extract(mp: &MockProver<F>, nb_fixed_before_selectors: usize) -> Result<P
         r0,
     })
 }
+
+// ---------------------------------------------------------------------------------------------
+// Base64Chip: lookup "Base64 lookup", table `two_entry_table`, regions "Base64 chunk"
+// ---------------------------------------------------------------------------------------------
+
+pub struct B64Trace {
+    /// the two (input expression > table column) pairs of the lookup, printed structurally
+    pub lookup: String,
+    /// rows `char.val` of the loaded table in the order loaded, without the padding
+    pub table: Vec<String>,
+    pub padding: String,
+    /// per enabled row `q:c0<pin>:c1<pin>:v<pin>`
+    pub rows: Vec<String>,
+}
+
+fn fe_small(v: &F) -> String {
+    small(&CellValue::Assigned(*v))
+}
+
+fn expr_text(e: &Expression<F>, nb_fixed: usize) -> String {
+    e.evaluate(
+        &|c| format!("k{}", fe_small(&c)),
+        &|_| "sel".to_string(),
+        &|q| {
+            if q.column_index() >= nb_fixed {
+                format!("q@{}", q.rotation().0)
+            } else {
+                format!("f{}@{}", q.column_index(), q.rotation().0)
+            }
+        },
+        &|q| format!("a{}@{}", q.column_index(), q.rotation().0),
+        &|_| "inst".to_string(),
+        &|_| "chal".to_string(),
+        &|a| format!("(-{a})"),
+        &|a, b| format!("({a}+{b})"),
+        &|a, b| format!("({a}*{b})"),
+        &|a, k| format!("({a}*k{})", fe_small(&k)),
+    )
+}
+
+/// Reads back what `Base64Chip::configure` / `load` / `base64_to_val_chunk` put into the circuit.
+pub fn extract_b64(mp: &MockProver<F>, nb_fixed: usize) -> Result<B64Trace, String> {
+    let cs = mp.cs();
+    let lk = cs
+        .lookups()
+        .iter()
+        .find(|l| l.name() == "Base64 lookup")
+        .ok_or("no lookup named 'Base64 lookup'")?;
+    let ins: Vec<String> = lk.input_expressions().iter().map(|e| expr_text(e, nb_fixed)).collect();
+    let mut tcols = vec![];
+    for t in lk.table_expressions() {
+        match shape(t) {
+            Shape::Fixed(tc, 0) => tcols.push(tc),
+            other => return Err(format!("unexpected table expression {other:?}")),
+        }
+    }
+    if ins.len() != 2 || tcols.len() != 2 || tcols[0] == tcols[1] {
+        return Err(format!("{} lookup pairs", ins.len()));
+    }
+    let lookup = format!("{}>t0 {}>t1", ins[0], ins[1]);
+    // the selector: the fixed column >= nb_fixed that occurs in the input expressions
+    let qcol: std::cell::Cell<Option<usize>> = std::cell::Cell::new(None);
+    for e in lk.input_expressions() {
+        e.evaluate(
+            &|_| (),
+            &|_| (),
+            &|q| {
+                if q.column_index() >= nb_fixed {
+                    qcol.set(Some(q.column_index()))
+                }
+            },
+            &|_| (),
+            &|_| (),
+            &|_| (),
+            &|_| (),
+            &|_, _| (),
+            &|_, _| (),
+            &|_, _| (),
+        );
+    }
+    let q = qcol.get().ok_or("no selector in the lookup")?;
+    let usable = mp.usable_rows().clone();
+    let fixed = mp.fixed();
+    let all: Vec<[String; 2]> = usable.clone().map(|r| [0, 1].map(|j| small(&fixed[tcols[j]][r]))).collect();
+    let pad = all.last().cloned().ok_or("no usable row")?;
+    let mut end = all.len();
+    while end > 0 && all[end - 1] == pad {
+        end -= 1;
+    }
+    // the first row equals the padding value (default of the table): keep it
+    let mut table: Vec<String> = all[..end].iter().map(|r| r.join(".")).collect();
+    if table.is_empty() {
+        table.push(pad.join("."));
+    }
+    let padding = format!("{}x{}", pad.join("."), all.len() - end);
+    // permutation pins (as in `extract`)
+    let pcols: Vec<(char, usize)> = mp
+        .permutation()
+        .columns()
+        .iter()
+        .map(|c| {
+            (
+                match c.column_type() {
+                    Any::Advice(_) => 'a',
+                    Any::Fixed => 'f',
+                    Any::Instance => 'i',
+                },
+                c.index(),
+            )
+        })
+        .collect();
+    let mapping: Vec<Vec<(usize, usize)>> =
+        mp.permutation().mapping().map(|c| c.collect::<Vec<_>>()).collect();
+    let pin = |col: usize, row: usize| -> String {
+        let Some(ci) = pcols.iter().position(|x| *x == ('a', col)) else {
+            return "f".into();
+        };
+        let mut cur = (ci, row);
+        let mut fixed_vals = vec![];
+        let mut len = 0usize;
+        loop {
+            len += 1;
+            let (k, idx) = pcols[cur.0];
+            if k == 'f' {
+                fixed_vals.push(small(&fixed[idx][cur.1]));
+            } else if k == 'i' {
+                fixed_vals.push("inst".into());
+            }
+            cur = mapping[cur.0][cur.1];
+            if cur == (ci, row) || len > 1 << 20 {
+                break;
+            }
+        }
+        fixed_vals.sort();
+        fixed_vals.dedup();
+        if !fixed_vals.is_empty() {
+            format!("={}", fixed_vals.join("&"))
+        } else if len > 1 {
+            "c".into()
+        } else {
+            "f".into()
+        }
+    };
+    let advice = mp.advice();
+    let mut rows = vec![];
+    for r in usable {
+        if matches!(fixed[q][r], CellValue::Assigned(v) if v == F::from(1)) {
+            rows.push(format!(
+                "1:{}{}:{}{}:{}{}",
+                small(&advice[0][r]),
+                pin(0, r),
+                small(&advice[1][r]),
+                pin(1, r),
+                small(&advice[2][r]),
+                pin(2, r)
+            ));
+        }
+    }
+    Ok(B64Trace { lookup, table, padding, rows })
+}
